@@ -5,7 +5,7 @@ from vf.core import Unit
 
 NAME = "U-errs"
 TOOL = "sim"
-PROPS = ["C06", "C16", "C13", "C01", "C08", "C09", "C07"]
+PROPS = ["C06", "C16", "C13", "C01", "C08", "C09", "C07", "C10"]
 TRUSTED = ["the probe driver prints the error returned by compile()"]
 
 
@@ -83,7 +83,10 @@ def corpus(tier):
     userlab = [{"source": "char x;\nvoid main() { if (x) { X = 3; } goto ifend1; X = 2; ifend1: X = 1; }\n", "args": ["-O0"], "expect": {"panic": False, "stdout_matches": nodup(".ifend1")}, "note": "a user label named ifend1 next to an if"},
                {"source": "char x;\nvoid main() { do { %s if (x) goto fix1; X = 2; fix1: X = 1; } while (Y); }\n" % " ".join("csleep(2);" for _ in range(130)), "args": ["-O0"],
                 "expect": {"panic": False, "stdout_matches": nodup(".fix1")}, "note": "a user label named fix1 in a function where a far branch is repaired"}]
-    return [("kf-user-label-named-like-a-generated-label", ["C13"], userlab), ("literal-extent", ["C09"], u_strscan.candidates(None)), ("literal-in-a-table", ["C09"], u_tablelit.candidates(None)), ("character-constants", ["C09"], chars), ("macro-forms", ["C08", "C07"], macros), ("constant-destinations-rejected", ["C13", "C01"], rejected), ("error-locations", ["C06"], loc), ("error-locations-inside-a-statement", ["C06"], multi), ("no-panic", ["C16"], nopanic)]
+    # recorded known finding: the calculator's `?:` is two infix operators with an in-band sentinel; a conditional nested in the middle operand is resolved wrongly
+    nested = [{"source": "char arr[%s]; void main() { X = sizeof(arr); }\n" % e, "args": ["-O0"], "expect": {"panic": False, "must_compile": True, "stdout_contains": "LDX #%d" % v}, "note": "%s is %d" % (e, v)}
+              for e, v in (("0 ? 1 ? 2 : 3 : 4", 4), ("1 ? 0 ? 2 : 3 : 4", 3), ("1 ? 1 ? 2 : 3 : 4", 2), ("0 ? 2 : 1 ? 3 : 4", 3), ("0 ? 2 : 0 ? 3 : 4", 4))]
+    return [("kf-calc-nested-conditional", ["C10"], nested[:1]), ("calc-nested-conditional", ["C10"], nested[1:]), ("kf-user-label-named-like-a-generated-label", ["C13"], userlab), ("literal-extent", ["C09"], u_strscan.candidates(None)), ("literal-in-a-table", ["C09"], u_tablelit.candidates(None)), ("character-constants", ["C09"], chars), ("macro-forms", ["C08", "C07"], macros), ("constant-destinations-rejected", ["C13", "C01"], rejected), ("error-locations", ["C06"], loc), ("error-locations-inside-a-statement", ["C06"], multi), ("no-panic", ["C16"], nopanic)]
 
 
 def build(repo):
